@@ -9,7 +9,8 @@ import OtelVerif.Model.Fanout
   `d` destroy; `c<i>` / `rs<i>` / `rf<i>` reader i's Collect / Shutdown / ForceFlush called directly (`mp` only).
   A case that does not end destroyed is destroyed at the end (segment `end`).
 
-Output: one segment per op, ` ; `-joined: the observation, then the events it caused in order. -/
+Output: one segment per op, ` ; `-joined: the observation, then the events it caused in order; last a segment
+`sum c<i>:F<ForceFlush calls received>:S<Shutdown calls received>:X<exporter Shutdown calls>` per child. -/
 namespace Driver
 open Otel.Fanout
 
@@ -140,8 +141,12 @@ def handleFan (toks : List String) : String :=
         let p0 := Prov.init l cs
         let r := p0.run ops
         let segs := (ops.zip r.2).map fun (op, o) => segStr kinds (opName op) o
+        let pf := if r.1.alive then r.1.destroy.1 else r.1
         let fin := if r.1.alive then [segStr kinds "end" (let d := r.1.destroy; (Obs.done, d.2))] else []
-        " ; ".intercalate (segs ++ fin)
+        -- the counters the theorems speak about, read from each child's own log
+        let sums := (List.range pf.children.length).zip pf.children |>.map fun (i, c) =>
+          s!"c{i}:F{c.nFlush}:S{c.nShutdown}:X{c.nXShutdown}"
+        " ; ".intercalate (segs ++ fin ++ [" ".intercalate ("sum" :: sums)])
       | _, _ => "bad-op"
   | _ => "bad-op"
 
